@@ -209,7 +209,10 @@ def create_formatted_exception(
 ) -> BaseException:
     try:
         try:
-            new = type(cls.__name__, (cls, base), {
+            # A class that the mixin derives from (``Exception`` itself)
+            # cannot come before it in the bases.
+            bases = (base, ) if issubclass(base, cls) else (cls, base)
+            new = type(cls.__name__, bases, {
                 '__str__': formatter,
                 '_original__str__': exc.__str__,
                 '__new__': BaseException.__new__,
